@@ -526,6 +526,23 @@ Fold(c, S, es, i, mode) == IF i > Len(es) \/ ~S.alive THEN S ELSE Fold(c, Step(c
 Session(c, es, mode) == Finish(c, Fold(c, Init0(c), es, 1, mode), mode)
 
 (***************************************************************************)
+(* Call level: the input decorator yash_env::input::EofGuard (its public    *)
+(* documentation and termination.md): the inner input delivers k            *)
+(* end-of-file conditions and then a line.  "On EOF ... the decorator       *)
+(* retries reading if ... the shell is interactive, the input is a          *)
+(* terminal, and the retry limit has not been reached ...: the ignore-eof   *)
+(* option is enabled and IgnoreEofConfig is present - prints                *)
+(* IgnoreEofConfig::message.  The retry limit is 50 consecutive EOFs per    *)
+(* next_line call.  Once the limit is reached the empty string is           *)
+(* returned".  Result: the warnings written and the line returned.          *)
+(***************************************************************************)
+GuardExpect(inter, tty, ign, k) ==
+  LET active == inter /\ tty /\ ign
+      warns == IF active THEN (IF k < 50 THEN k ELSE 50) ELSE 0
+  IN [pat |-> <<Rp(warns, warns, <<L(IgnMsg)>>)>>,
+      ret |-> IF k = 0 \/ (active /\ k <= 50) THEN "line\n" ELSE ""]
+
+(***************************************************************************)
 (* Sessions the specification speaks about (everything else is left open    *)
 (* and must not be used to judge an implementation).                        *)
 (***************************************************************************)
